@@ -3,6 +3,7 @@
 package udp
 
 import (
+	"encoding/base64"
 	"net"
 
 	"github.com/fatedier/frp/verif"
@@ -16,8 +17,12 @@ import (
 //verif:lemma
 //verif:props C17
 func verif_udp_payload_round_trip(buf []byte, laddr, raddr *net.UDPAddr) {
+	verif.ResetEvents()
 	m := NewUDPPacket(buf, laddr, raddr)
 	back, err := GetContent(m)
+	// wire stability: the released protocol carries the payload in the standard
+	// base64 alphabet, on both the encoding and the decoding side
+	verif.Assert(verif.CalledWith("Encoding).EncodeToString", 0, base64.StdEncoding) && verif.CalledWith("Encoding).DecodeString", 0, base64.StdEncoding), "standard_base64_alphabet_on_the_wire")
 	verif.Assert(err == nil && verif.Same(back, buf), "payload_decodes_to_the_datagram")
 	verif.Assert(m.LocalAddr == laddr && m.RemoteAddr == raddr, "addresses_unchanged")
 }
